@@ -183,6 +183,14 @@ def eof_is_io_rule(ctx):
             for bb, t in x.calls():
                 if not x.is_cleanup(bb) and strip_generics(cname(t)).endswith('DeError::new'):
                     plain.append('%s at %s' % (short_fn(fl), short_loc(t.get('span'))))
+    # the provided `Read::skip_bytes` (used by every reader that does not override it: a skip that comes up short is the end of
+    # the input) and the header check of the single-object slice entry point (fewer than 10 bytes) are ends of input too
+    for lab in ('de::read::Read::skip_bytes', 'single_object_encoding::from_single_object_slice'):
+        for x in f.body_list:
+            if fn_label(x).split('::{closure')[0] == lab:
+                for bb, t in x.calls():
+                    if not x.is_cleanup(bb) and strip_generics(cname(t)).endswith(('DeError::new', 'DeError::custom', 'de::Error>::custom', 'de::Error::custom')):
+                        plain.append('%s at %s' % (short_fn(fn_label(x)), short_loc(t.get('span'))))
     ctx.ob('IOERR', 'slice-eof-is-an-io-error', io_ and kind and not plain, short_loc(b.span),
            'DeError::unexpected_eof() carries an io::Error: %s, of kind UnexpectedEof: %s; message-only errors originated by the slice reader: %s' % (io_, kind, plain or 'none'))
 
